@@ -345,13 +345,14 @@ type Partial struct {
 	Counters     map[string]int64 `json:"counters"`
 	Violations   []Violation      `json:"violations"`
 	Inconclusive []string         `json:"inconclusive"`
+	Extra        map[string]any   `json:"extra,omitempty"`
 }
 
 // Export turns the run into a Partial (worker side).
 func (r *Run) Export() Partial {
 	r.mu.Lock()
 	defer r.mu.Unlock()
-	p := Partial{Evaluations: r.evaluations, Samples: r.samples, Counters: r.counters, Violations: r.violations}
+	p := Partial{Evaluations: r.evaluations, Samples: r.samples, Counters: r.counters, Violations: r.violations, Extra: r.extra}
 	for k := range r.distinct {
 		p.Distinct = append(p.Distinct, k)
 	}
@@ -389,5 +390,14 @@ func (r *Run) Merge(p Partial) {
 	}
 	for _, n := range p.Inconclusive {
 		r.Inconclusive(n)
+	}
+	for k, v := range p.Extra {
+		if l, ok := v.([]any); ok {
+			for _, x := range l {
+				r.extraAppend(k, x)
+			}
+			continue
+		}
+		r.Extra(k, v)
 	}
 }
